@@ -32,13 +32,13 @@ Definition spec_verdict (count : Z) (lim : option Z) (abs pct gl : option Z) : v
       else Pass
   end.
 
-Definition spec_depth_verdict (l : limits) (d : Z) : verdict :=
+Definition spec_depth_verdict (l : limits) (p : path) (d : Z) : verdict :=
   match l_max_depth l with
   | None => Pass
   | Some limit =>
       if limit =? UNLIMITED then Pass
-      else if limit <? effective_depth l d then Fail
-      else if pct_point limit None (l_warn_threshold l) <? effective_depth l d then Warn
+      else if limit <? effective_depth l p d then Fail
+      else if pct_point limit None (l_warn_threshold l) <? effective_depth l p d then Warn
       else Pass
   end.
 
@@ -54,8 +54,8 @@ Definition spec_check_dir (l : limits) (p : path) (s : dirstats) : list violatio
              (spec_verdict (file_count s) (l_max_files l) (l_warn_files_at l) (l_warn_files_threshold l) (l_warn_threshold l))
   ++ of_verdict p VDirCount (dir_count s) (match l_max_dirs l with Some x => x | None => 0 end)
              (spec_verdict (dir_count s) (l_max_dirs l) (l_warn_dirs_at l) (l_warn_dirs_threshold l) (l_warn_threshold l))
-  ++ of_verdict p VMaxDepth (effective_depth l (depth s)) (match l_max_depth l with Some x => x | None => 0 end)
-             (spec_depth_verdict l (depth s)).
+  ++ of_verdict p VMaxDepth (effective_depth l p (depth s)) (match l_max_depth l with Some x => x | None => 0 end)
+             (spec_depth_verdict l p (depth s)).
 
 Definition spec_check_all (cfg : config) (scope_of : path -> list bool) (m : dmap) : list violation :=
   flat_map (fun ps => spec_check_dir (resolve_limits cfg (scope_of (fst ps))) (fst ps) (snd ps)) m.
@@ -111,39 +111,52 @@ Definition forbidden_spec (cfg : config) (name : str) (c : cols) (scope : list b
      end)
   ].
 
-(* directories: every applicable clause reports *)
-Definition forbidden_dir_spec (cfg : config) (c : cols) (scope : list bool) : list (vkind * rref) :=
+(* directories (fixes/D48): the same shape of ladder, the first applicable clause decides, so a directory is
+   reported at most once *)
+Definition forbidden_dir_spec (cfg : config) (c : cols) (scope : list bool) : option (vkind * rref) :=
   let g := c_g c in
   let sr := consulted_spec cfg scope (c_r c) in
   let admits := match sr with
                 | Some (_, r, rc) => r_has_dir_allowlist r && r_allow_dirs rc
                 | None => false
                 end in
-  (if has_global_dir_allowlist cfg && negb (g_allow_dirs g) then [(VDisallowedDir, RGlobal)] else [])
-  ++ (if negb (has_global_dir_allowlist cfg) && negb admits
-      then (match dir_matches_global_deny g with Some m => [(VDeniedDir m, RGlobal)] | None => [] end)
-           ++ (match dir_matches_global_deny_basename g with Some m => [(VDeniedDir m, RGlobal)] | None => [] end)
-      else [])
-  ++ (match sr with
-      | Some (i, r, rc) =>
-          if r_has_dir_allowlist r
-          then (if negb (r_allow_dirs rc) then [(VDisallowedDir, RRule i)] else [])
-          else (match r_dir_matches_deny rc with Some m => [(VDeniedDir m, RRule i)] | None => [] end)
-      | None => []
-      end).
+  first_some [
+    (* 1. a global directory allowlist, and the directory is not on it *)
+    (if has_global_dir_allowlist cfg && negb (g_allow_dirs g) then Some (VDisallowedDir, RGlobal) else None);
+    (* 2. a global directory-only deny pattern, then a global deny_dirs name, unless the scope's allowlist
+          admits the directory *)
+    (if negb (has_global_dir_allowlist cfg) && negb admits
+     then option_map (fun m => (VDeniedDir m, RGlobal))
+                     (or_else (dir_matches_global_deny g) (dir_matches_global_deny_basename g))
+     else None);
+    (* 3. the scope's rule has a directory allowlist and the directory is not on it / 4. a deny_dirs entry
+          of the scope's rule matches *)
+    (match sr with
+     | Some (i, r, rc) =>
+         if r_has_dir_allowlist r
+         then (if negb (r_allow_dirs rc) then Some (VDisallowedDir, RRule i) else None)
+         else option_map (fun m => (VDeniedDir m, RRule i)) (r_dir_matches_deny rc)
+     | None => None
+     end)
+  ].
 
-(* which entries placement applies to at all (scanned, and for files counted) *)
+(* which entries placement applies to at all: every scanned entry -- count_exclude keeps an entry out of the
+   quotas only (fixes/D49) -- except the project root itself, which has no name inside the project
+   (fixes/D51) *)
 Definition spec_entry_violations (cfg : config) (e : entry) : list violation :=
   match e_kind e with
   | KFile =>
-      if scan_excluded (e_cols e) false || count_excluded (e_cols e) then []
+      if scan_excluded (e_cols e) false then []
       else match forbidden_spec cfg (e_name e) (e_cols e) (e_plim e) with
            | Some (k, rr) => [mkv (e_path e) k 0 rr]
            | None => []
            end
   | KDir =>
-      if scan_excluded (e_cols e) true then []
-      else map (fun kr => mkv (e_path e) (fst kr) 0 (snd kr)) (forbidden_dir_spec cfg (e_cols e) (e_plim e))
+      if scan_excluded (e_cols e) true || is_project_root (e_path e) then []
+      else match forbidden_dir_spec cfg (e_cols e) (e_plim e) with
+           | Some (k, rr) => [mkv (e_path e) k 0 rr]
+           | None => []
+           end
   | KOther => []
   end.
 
